@@ -206,6 +206,42 @@ def c07(run: Run):
             run.add("rawlzma2 ops=d:%s;r;d:%s" % (h, h),
                     oracle=lambda res, meta, peak: "panic/hang in raw decoder: " + res[:80] if ("panic" in res or v(res) in ("hang", "abort", "missing")) else None,
                     tag="c07:rawlzma2", release=True)
+    # targeted error paths (the property's "structured mutations": sizes that fall inside a copy,
+    # chunk sizes off by a few, stale distances after a dictionary reset, huge announced sizes)
+    for m in [x for x in lz if x.get("cum") and len(x["out"]) > 3 and x["dict"] >= 4096][:sizes(run.tier, 25, 200)]:
+        cum = set(int(c) for c in m["cum"].split(",") if c)
+        inside = [n for n in range(1, len(m["out"])) if n not in cum][:3]
+        for n in inside + [len(m["out"]) - 1]:
+            data = lzma_header(m["lc"], m["lp"], m["pb"], m["dict"], n) + m["payload"]
+            run.add("lzma us=hdr in=%s" % data.hex(), oracle=bound(len(data)), tag="c07:size-inside-copy", release=True)
+            run.add("stream us=hdr ops=%s" % stream_ops(data, [len(data)], op="wa"),
+                    oracle=lambda res, meta, peak: "panic/hang in stream" if (stream_verdict(res) in ("panic", "hang", "abort", "missing")) else None,
+                    tag="c07:stream-size-inside-copy", release=True)
+    for m in [x for x in lz2 if x.get("gen")][:sizes(run.tier, 20, 100)]:
+        pay = m["payload"]
+        for c in [c for c in parse_lzma2(pay) if c["kind"] == "lzma"][:2]:
+            o = c["off"]
+            for du in (-1, -2, -7, 1):
+                nu = c["unpacked"] + du
+                if 1 <= nu <= (1 << 21):
+                    mut = pay[:o] + bytes([(pay[o] & 0xE0) | ((nu - 1) >> 16)]) + ((nu - 1) & 0xFFFF).to_bytes(2, "big") + pay[o + 3:]
+                    run.add("lzma2 in=%s" % mut.hex(), oracle=bound(len(mut)), tag="c07:chunk-size-off", release=True)
+    for b in core.gen_material("lzma2bad", run.seed + 7, sizes(run.tier, 40, 300)):
+        run.add("lzma2 in=%s" % b["payload"].hex(), oracle=bound(len(b["payload"])), tag="c07:lzma2-stale-distance", release=True)
+        run.add("rawlzma2 ops=d:%s;d:%s" % (b["payload"].hex(), b["payload"].hex()),
+                oracle=lambda res, meta, peak: "panic/hang in raw decoder: " + res[:80] if ("panic" in res or v(res) in ("hang", "abort", "missing")) else None,
+                tag="c07:rawlzma2", release=True)
+    for f in [x for x in xzs if x["blocks"]][:sizes(run.tier, 6, 30)]:
+        for val in (2**30, 2**40, 2**62, 2**63 - 1):
+            for which in ("unpacked", "packed"):
+                bl = [core.XzBlock(b.payload, b.out, which == "packed" or b.decl_packed, which == "unpacked" or b.decl_unpacked,
+                                   b.extra_pad_words, dict(b.widths), b.filter_id, b.flags_extra, b.props) for b in f["blocks"]]
+                if which == "unpacked":
+                    bl[0].unpacked_override = val
+                else:
+                    bl[0].packed_override = val
+                d = core.build_xz(f["check"], bl)
+                run.add("xz in=%s" % d.hex(), oracle=bound(len(d)), tag="c07:xz-huge-announced-size", release=True)
     # F1/F2 regression witnesses
     f = xzs[0]
     for bs in (0xFFFFFFFF, 0x40000000):
@@ -885,6 +921,21 @@ def c17(run: Run):
             bad = bytes([0x40]) + pay[1:]
             blk = core.XzBlock(bad, m["out"])
             run.add("xz in=%s" % core.build_xz(1, [blk]).hex(), oracle=exp_err(), tag="c17:in-xz", mut="ctrl=0x40")
+    # a chunk that ends early with an end marker although it declares more bytes
+    for m in [x for x in core.gen_material("lzma", run.seed + 17, sizes(run.tier, 200, 1200)) if x["eos"] and x["lc"] + x["lp"] <= 4
+              and 0 < len(x["out"]) < 60000 and len(x["payload"]) <= 65536][:sizes(run.tier, 25, 200)]:
+        for extra in (1, 5):
+            u = len(m["out"]) + extra - 1
+            chunk = bytes([0xE0 | (u >> 16)]) + (u & 0xFFFF).to_bytes(2, "big") + (len(m["payload"]) - 1).to_bytes(2, "big") + \
+                bytes([core.props_byte(m["lc"], m["lp"], m["pb"])]) + m["payload"]
+            data = chunk + b"\x02\x00\x00\x41\x00"
+            run.add("lzma2 in=%s" % data.hex(), oracle=exp_err(), tag="c17:marker-before-declared-size", mut="unpacked+%d, ends with marker" % extra)
+    # the reserved control byte 0x7F in front of what would be a valid 2 MiB chunk under 0xFF
+    for b in core.gen_material("lzma2big", 1, 2):
+        if b.get("what") == "unpacked2MiB":
+            run.add("lzma2 in=%s" % b["payload"].hex(), oracle=exp_ok_out(b["out"]), tag="c17:valid-2MiB")
+            for ctrl in (0x7F, 0x5F, 0x1F):
+                run.add("lzma2 in=%s" % (bytes([ctrl]) + b["payload"][1:]).hex(), oracle=exp_err(), tag="c17:ctrl", mut="ctrl=0x%02x" % ctrl)
     # F5 witness (a chunk declaring one byte less than its payload encodes)
     w = bytes.fromhex("e0001400185d0031190848" "52b0dc9a25eba19447c2fb7497484699" "5b2837" "0000")
     run.add("lzma2 in=%s" % w.hex(), oracle=exp_err(), tag="c17:witness-F5", mut="unpacked-1")
@@ -911,7 +962,8 @@ def c18(run: Run):
             run.add("xz in=%s" % data.hex(), oracle=refused, tag="c18:check-id", feature="check id %d" % cid,
                     nontrivial=True)
         # other filters
-        for fid in (0x03, 0x04, 0x05, 0x06, 0x07, 0x08, 0x09, 0x0A, 0x20, 0x22, rng.below(2**40) + 0x100, 2**62 + 1):
+        for fid in (0x03, 0x04, 0x05, 0x06, 0x07, 0x08, 0x09, 0x0A, 0x20, 0x22, rng.below(2**40) + 0x100, 2**62 + 1,
+                    0x100000021, (rng.below(2**20) + 1 << 32) | 0x21, 2**62 + 0x21, 0x2100, 0x121, 0x10021):
             if not blocks:
                 break
             bl = [core.XzBlock(b.payload, b.out, b.decl_packed, b.decl_unpacked, b.extra_pad_words, dict(b.widths), b.filter_id, b.flags_extra, b.props) for b in blocks]
